@@ -155,7 +155,7 @@ VF_SWEEP(all_scalars_all_ops, false, "exhaustive: each of the 1,112,064 Unicode 
 {
 	for (uint32_t cp = 0; cp <= 0x10FFFF; cp++) {
 		if (cp >= 0xD800 && cp <= 0xDFFF) continue;
-		if (!c.mine(cp)) continue;
+		if (c.skip(cp, [&] { return vf::cat("U+", std::hex, cp); })) continue;
 		Scalars s(1, static_cast<char32_t>(cp));
 		try {
 			unsigned n = all_ops(s, UtfEncodingErrorPolicy::Skip, false);
